@@ -23,6 +23,33 @@ func init() {
 			return e.freshVar(st, e.mustConstString(st, args[0]), w)
 		}
 	}
+	// Choice returns a value in [0,n) chosen by the solver and concretised by forking.
+	intrinsics[vrtPkg+".Choice"] = func(e *Engine, st *State, th *Thread, args []Value, pos token.Pos) Value {
+		name := e.mustConstString(st, args[0])
+		n := e.concInt(st, args[1].(*Term))
+		cnt := st.names[name]
+		full := name
+		if cnt > 0 {
+			full = fmt.Sprintf("%s#%d", name, cnt+1)
+		}
+		v := e.ts.Var(full, 64)
+		if c, ok := st.conc[v.id]; ok {
+			st.names[name] = cnt + 1
+			st.vars = append(st.vars, v)
+			return e.i64(c)
+		}
+		vals := make([]uint64, n)
+		for i := range vals {
+			vals[i] = uint64(i)
+		}
+		if n == 1 {
+			st.conc[v.id] = 0
+			st.names[name] = cnt + 1
+			st.vars = append(st.vars, v)
+			return e.i64(0)
+		}
+		panic(forkVals{v, vals})
+	}
 	intrinsics[vrtPkg+".Bytes"] = func(e *Engine, st *State, th *Thread, args []Value, pos token.Pos) Value {
 		name := e.mustConstString(st, args[0])
 		max := e.concInt(st, args[1].(*Term))
